@@ -19,7 +19,7 @@ i128 g_e;                           /* ghost divisor of a gcd result ("whatever 
 #define HGHOSTS GHOSTG(i128, g_x); GHOSTG(i128, g_y); GHOSTG(i128, g_d); GHOSTG(i128, g_e)
 #define CFRESH2(tag) (FRESH(tag, self, sizeof(C)) && FRESH(tag, x, sizeof(C)))
 #define RV __CPROVER_return_value
-#define OLDZ(z) ((i128)(((u128)__CPROVER_old((z).f0.a[0].f1) << 64) | (u128)__CPROVER_old((z).f0.a[0].f0)))
+#define OLDZ(z) ((i128)(((u128)__CPROVER_old((z).f0.a.f1) << 64) | (u128)__CPROVER_old((z).f0.a.f0)))
 /* mangled names used in replace= lists */
 #define N_CTOR _ZN4ikos10congruenceINS_8z_numberEEC2ES1_S1_
 #define N_GCDH _ZNK4ikos10congruenceINS_8z_numberEE10gcd_helperES1_S1_
